@@ -568,6 +568,19 @@ func (r *Ring) UnmarshalJSON(data []byte) (err error) {
 // newRingFromparametersLiteral creates a new Ring from the provided RingParametersLiteral.
 func newRingFromparametersLiteral(p ringParametersLiteral) (r *Ring, err error) {
 
+	if len(p) == 0 {
+		return nil, fmt.Errorf("invalid SubRings: must be a non-empty list")
+	}
+
+	moduli := make([]uint64, len(p))
+	for i := range p {
+		moduli[i] = p[i].Modulus
+	}
+
+	if !utils.AllDistinct(moduli) {
+		return nil, fmt.Errorf("invalid SubRings: moduli are not distinct")
+	}
+
 	r = new(Ring)
 
 	r.SubRings = make([]*SubRing, len(p))
@@ -577,7 +590,7 @@ func newRingFromparametersLiteral(p ringParametersLiteral) (r *Ring, err error) 
 	for i := range r.SubRings {
 
 		if r.SubRings[i], err = newSubRingFromParametersLiteral(p[i]); err != nil {
-			return
+			return nil, err
 		}
 
 		if i > 0 {
